@@ -592,7 +592,7 @@ func RNegFresh(c *core.Ctx) {
 // ---------------------------------------------------------------------------
 
 func RFlipAdd(c *core.Ctx) {
-	c.Rule("R-FLIPADD", "CharSet methods that canonicalize (and may thereby switch the class to its negated form) are also the methods that add members; therefore every method that appends to the receiver's ranges or categories is preceded on every path — in the method or at every call site of it — by a call to the routine that restores the positive form (a CharSet method that clears negate)", 5)
+	c.Rule("R-FLIPADD", "CharSet methods that canonicalize (and may thereby switch the class to its negated form) are also the methods that add members; therefore every method that appends to the receiver's ranges or categories, or replaces the range list by a fresh one, is preceded on every path — in the method or at every call site of it — by a call to the routine that restores the positive form (a CharSet method that clears negate)", 5)
 	p := c.P
 	neg := p.LookupField("syntax", "CharSet", "negate")
 	rng := p.LookupField("syntax", "CharSet", "ranges")
@@ -643,6 +643,15 @@ func RFlipAdd(c *core.Ctx) {
 						flipper[fn] = true
 					}
 				case rng, cats:
+					// the whole member list replaced by a fresh one (makeAnything: "all of Unicode"):
+					// the new members are meant positively too
+					if core.FieldVarOfAddr(fa) == rng {
+						if sl, ok := st.Val.(*ssa.Slice); ok {
+							if _, fresh := sl.X.(*ssa.Alloc); fresh {
+								adders[fn] = append(adders[fn], addSite{st, rng})
+							}
+						}
+					}
 					// an append whose first operand is the field's own value
 					if call, ok := st.Val.(*ssa.Call); ok {
 						if bi, ok := call.Call.Value.(*ssa.Builtin); ok && bi.Name() == "append" {
@@ -719,6 +728,9 @@ func RFlipAdd(c *core.Ctx) {
 		for _, s := range cs {
 			if s.caller == fn {
 				continue
+			}
+			if flipper[s.caller] || restorer[s.caller] {
+				continue // canonicalize / the un-flip routine decide the form themselves
 			}
 			if ok, _ := restoredBefore(s.caller, s.call, depth+1); !ok {
 				return false, fmt.Sprintf("reached from %s (%s) without a preceding restore", core.SSAName(s.caller), p.Pos(s.call.Pos()))
